@@ -229,6 +229,27 @@ def make_collab_classes(rt, prog):
 
     Events.partial = EventsPartial
 
+    class EventsFirst:
+        """a badly behaved manager registered BEFORE the recording one (prog.collab has 'ev0'): it raises in its k-th
+        callback; the managers after it must still be told about every event"""
+
+        async def _call(self):
+            await rt.collab_call('ev0', '-')
+
+        async def on_pipeline_start(self, ctx):  # noqa: ANN001
+            await self._call()
+
+        async def on_pipeline_complete(self, ctx, result):  # noqa: ANN001
+            await self._call()
+
+        async def on_node_start(self, ctx, node_id):  # noqa: ANN001
+            await self._call()
+
+        async def on_node_complete(self, ctx, node_id, error):  # noqa: ANN001
+            await self._call()
+
+    Events.first = EventsFirst
+
     class Store(ArtifactStore):
         async def save(self, node_id, data):  # noqa: ANN001
             mine = self.__dict__.setdefault('_verif_runs', set())
@@ -254,6 +275,8 @@ def build_chart(prog, rt, events=True, store=True, manager_cls=None):
     managers = [Events] if events else []
     if events and 'evp' in (prog.get('collab') or {}):
         managers.insert(0, Events.partial)
+    if events and 'ev0' in (prog.get('collab') or {}):
+        managers.insert(0, Events.first)
     if events and 'ev2' in (prog.get('collab') or {}):
         managers.append(Events2)
     chart = PipelineChart(
